@@ -55,8 +55,11 @@ def observe(probes, recv):
 def run_case(case):
     probes = {}
     recv = {}
+    used = {op[1] for op in case["ops"] if op[0] in ("act", "deact")}
     for pid, text in PROBES.items():
         recv[pid] = []
+        if pid not in used:
+            continue            # never touched in this history: nothing to create
         if pid == "p9":
             # total mode; its listener raises for the value 13 (after recording the event)
             p = Probe(text, env=ENV, raw=True)
